@@ -631,6 +631,7 @@ def run_roundtrip(case):
 @st.composite
 def roundtrip_cases(draw, tier):
     c = draw(gen.path_cases(max_frames=8, max_atoms=4))
+    c['species_kind'] = draw(st.sampled_from(['Species', 'Element', 'Species-oxi', 'Species-mixed', 'Species-mixed']))  # (one element may occur in two oxidation states)
     c['mode'] = draw(st.sampled_from(['positions', 'displacements']))
     c['over_longer'] = draw(st.booleans())
     return c
